@@ -21,6 +21,7 @@ type Shadow struct {
 	// abstract tensor: only its (possibly symbolic) shape exists
 	abs      bool
 	absShape []*smt.Term
+	dtSym    *smt.Term // symbolic dtype (index into the dtype universe), abstract tensors only
 }
 
 func (c *Ctx) absMethod(s *Shadow, name string) Value {
@@ -35,6 +36,12 @@ func (c *Ctx) absMethod(s *Shadow, name string) Value {
 		}
 		return SliceV{B: b, Len: len(s.absShape), Cap: len(s.absShape)}
 	case "Dtype":
+		if s.dtSym != nil {
+			if s.dtSym.IsConst() {
+				return DtypeV{Idx: int(s.dtSym.U)}
+			}
+			return DtypeV{Idx: -1, Sym: s.dtSym}
+		}
 		return DtypeV{Idx: dtypeIndex(s.dt)}
 	case "Dims":
 		return c.St.BVC(64, uint64(len(s.absShape)))
